@@ -214,13 +214,18 @@ example : ∀ e ∈ ErrExample.inp.basicEdges,
 
 /-! ## the cyclic class `kLeastAbsErrorsCycles` -/
 
-/-- the repetition cap of an edge of the augmented graph: inside an SCC the largest flow value (`0`
-where the attribute is missing) among the edge, the edges leaving a vertex reachable from its head and
-the edges entering a vertex reaching its tail; `1` outside the SCCs -/
+/-- the repetition cap of an edge of the augmented graph: inside an SCC the floor (since fix fcfd0b0) of
+the largest flow value (`0` where the attribute is missing) among the edge, the edges leaving a vertex
+reachable from its head and the edges entering a vertex reaching its tail; `1` outside the SCCs -/
 theorem klaec_cap (inp : WalkInput) (e : Edge) (he : e ∈ inp.st.g.edges) :
     klaecCap inp e = if isSccEdge inp.st.g e
-      then lookupD (edgeMaxReachable inp.st.g fun e => (inp.fOpt e).getD 0) e 0 else 1 :=
+      then (((lookupD (edgeMaxReachable inp.st.g fun e => (inp.fOpt e).getD 0) e 0).floor : Int) : Rat)
+      else 1 :=
   FP.klaecCap_eq inp e he
+
+/-- … an integer in every case (since fix fcfd0b0) -/
+theorem klaec_cap_int (inp : WalkInput) (e : Edge) : ∃ z : Int, klaecCap inp e = (z : Rat) :=
+  FP.klaecCap_int inp e
 
 /-- **(a) soundness, cyclic class.** For every satisfying assignment of the `kLeastAbsErrorsCycles` LP
 on a well-formed user digraph (cycles allowed): the weights lie in `[0, w_max]` and are integral for
